@@ -8,6 +8,7 @@ B1 == MapV(<< <<K("p"), IntV(1)>>, <<K("q"), IntV(2)>> >>)
 B2plain == MapV(<< <<K("q"), IntV(3)>>, <<K("r"), IntV(4)>> >>)
 B2nested == MapV(<< <<MergeKey, Alias("b1")>>, <<K("q"), IntV(3)>>, <<K("r"), IntV(4)>> >>)
 B2nestedLate == MapV(<< <<K("q"), IntV(3)>>, <<MergeKey, Alias("b1")>>, <<K("r"), IntV(4)>> >>)
+B2nestedList == MapV(<< <<MergeKey, SeqV(<<Alias("b1")>>)>>, <<K("q"), IntV(3)>>, <<K("r"), IntV(4)>> >>)     \* the merged-in map itself merges a LIST
 Inline == MapV(<< <<K("q"), IntV(8)>>, <<K("z"), IntV(6)>> >>)                      \* `<<: {q: 8, z: 6}`: the merge-key rules allow a mapping in place
 MergeVals == << Null, Alias("b1"), SeqV(<<Alias("b1"), Alias("b2")>>), SeqV(<<Alias("b2"), Alias("b1")>>), SeqV(<<Alias("b1")>>), Alias("b2"),
                 Inline, SeqV(<<Alias("b1"), Inline>>), SeqV(<<Inline, Alias("b2")>>) >>   \* Null: no merge entry
@@ -26,8 +27,8 @@ Doc(b2, mv, expl, pos, extra) ==
           <<K("b"), Anchor("b1", B1)>>, <<K("c"), Anchor("b2", b2)>>,
           <<K("m"), MapV(Place(expl, mv, pos) \o extra)>> >>)
 VARIABLES b2i, mvi, done
-Init == b2i \in 1..3 /\ mvi \in DOMAIN MergeVals /\ done = FALSE
-B2Of(i) == CASE i = 1 -> B2plain [] i = 2 -> B2nested [] OTHER -> B2nestedLate
+Init == b2i \in 1..4 /\ mvi \in DOMAIN MergeVals /\ done = FALSE
+B2Of(i) == CASE i = 1 -> B2plain [] i = 2 -> B2nested [] i = 3 -> B2nestedLate [] OTHER -> B2nestedList
 Mine == { Doc(B2Of(b2i), MergeVals[mvi], Explicits[e], pos, Extras[x]) : e \in DOMAIN Explicits, pos \in {0, 1, 9}, x \in DOMAIN Extras }
 Next == /\ ~done /\ done' = TRUE /\ UNCHANGED <<b2i, mvi>>
         /\ \A d \in Mine : PrintT("@@" \o ToJson([doc |-> d, resolved |-> Resolve(d), paths |-> Paths(Resolve(d)),
